@@ -179,7 +179,33 @@ pub fn payload_bytes(key: u64, pid: Pid) -> Vec<u8> {
     tag[12..16].copy_from_slice(&(key as u32).to_le_bytes());
     let n = out.len().min(16);
     out[..n].copy_from_slice(&tag[..n]);
+    // Hostile tail: the last FORGED_ENTRY_LEN bytes of every payload of at least 64 bytes
+    // are a complete, well-formed serialized WAL entry (AppendRecords on a queue nobody ever
+    // created).  If a frame boundary falls right before it and the library ever takes that
+    // frame's payload for an entry of its own (e.g. a damaged frame-type byte that is not
+    // covered by the checksum), a record that was never appended surfaces.
+    if out.len() >= 64 {
+        let e = forged_entry();
+        let at = out.len() - e.len();
+        out[at..].copy_from_slice(&e);
+    }
     out
+}
+
+pub const FORGED_QUEUE: &str = "forged!";
+pub const FORGED_ENTRY_LEN: usize = 1 + 8 + 2 + 7 + 8 + 4 + 11;
+
+/// Serialized `AppendRecords { queue: "forged!", position: 7, [(7, "FORGED-DATA")] }`.
+pub fn forged_entry() -> Vec<u8> {
+    let mut e = Vec::with_capacity(FORGED_ENTRY_LEN);
+    e.push(4u8);
+    e.extend_from_slice(&7u64.to_le_bytes());
+    e.extend_from_slice(&(FORGED_QUEUE.len() as u16).to_le_bytes());
+    e.extend_from_slice(FORGED_QUEUE.as_bytes());
+    e.extend_from_slice(&7u64.to_le_bytes());
+    e.extend_from_slice(&11u32.to_le_bytes());
+    e.extend_from_slice(b"FORGED-DATA");
+    e
 }
 
 pub fn payload_hash(key: u64, pid: Pid) -> u64 {
